@@ -9,6 +9,6 @@ python3 - "$ID" > $d/property.json <<'PY'
 import json,sys
 for l in open('/verif/properties.jsonl'):
     r=json.loads(l)
-    if r['id']==sys.argv[1]: print(json.dumps(r,indent=1))
+    if r['id']==sys.argv[1][:3]: print(json.dumps(r,indent=1))
 PY
 echo $d
